@@ -118,7 +118,8 @@ WRAPS = ["time", "platform_timer_start",
          "bind", "listen", "accept", "recv", "send",
          "async_runtime_init", "async_runtime_add", "async_runtime_modify", "async_runtime_remove",
          "async_runtime_wakeup", "async_runtime_wait", "async_runtime_get_console_type",
-         "console_worker_init", "isatty", "tcgetattr", "tcsetattr", "write"]
+         "console_worker_init", "isatty", "tcgetattr", "tcsetattr", "write",
+         "fopen", "fclose", "rename", "unlink", "fprintf"]
 
 
 def include_flags(bdir):
